@@ -156,7 +156,7 @@ func (p c01) Run(w *mon.Worker, idx int) mon.Result {
 		}
 	}
 	// the same program with only the brackets the precedence table requires means the same (observed on yq alone)
-	if idx%4 == 1 {
+	if idx%2 == 1 {
 		if minExpr := e.StringMin(); minExpr != expr {
 			out2, yerr2, pan2 := yqx.Eval(minExpr, docText+"\n", "yaml", "json")
 			res.Evals++
